@@ -5,7 +5,7 @@ package generator
 // Contracts for output assembly (property C12). Comment-only file, read by /verif/engine (govc).
 
 // Representation invariant of FileManager: index is exactly the inverse of files[i].Name.
-//@ pure func wfFM(fm *FileManager) bool { return fm != nil && fm.index != nil && fm.patch != nil && fm.count != nil && fm.index != fm.count && (forall i int :: 0 <= i && i < len(fm.files) ==> fm.files[i] != nil && fm.files[i].Name != nil && inDom(fm.index, *fm.files[i].Name) && fm.index[*fm.files[i].Name] == i) && (forall n string :: inDom(fm.index, n) ==> 0 <= fm.index[n] && fm.index[n] < len(fm.files) && *fm.files[fm.index[n]].Name == n) }
+//@ pure func wfFM(fm *FileManager) bool { return fm != nil && fm.index != nil && fm.patch != nil && fm.count != nil && fm.index != fm.count && (forall n string; k int :: 0 <= k && k < len(fm.patch[n]) ==> fm.patch[n][k] != nil) && (forall i int :: 0 <= i && i < len(fm.files) ==> fm.files[i] != nil && fm.files[i].Name != nil && inDom(fm.index, *fm.files[i].Name) && fm.index[*fm.files[i].Name] == i) && (forall n string :: inDom(fm.index, n) ==> 0 <= fm.index[n] && fm.index[n] < len(fm.files) && *fm.files[fm.index[n]].Name == n) }
 
 // The files handed in are distinct objects that the manager does not hold yet.
 //@ pure func freshInput(fm *FileManager, files []*plugin.Generated) bool { return (forall a int :: 0 <= a && a < len(files) ==> files[a] != nil) && (forall a, b int :: 0 <= a && a < b && b < len(files) ==> files[a] != files[b]) && (forall a, j int :: 0 <= a && a < len(files) && 0 <= j && j < len(fm.files) ==> files[a] != fm.files[j]) }
@@ -66,7 +66,6 @@ package generator
 
 //@ func (fm *FileManager) BuildResponse() *plugin.Response
 //@   requires wfFM(fm)
-//@   requires forall n string; k int :: 0 <= k && k < len(fm.patch[n]) ==> fm.patch[n][k] != nil
 //@   ensures result != nil && fresh(result) && len(result.Contents) == len(fm.files)
 //@   ensures forall i int :: 0 <= i && i < len(fm.files) ==> result.Contents[i] != nil && fresh(result.Contents[i]) && result.Contents[i].Name == fm.files[i].Name
 //@   loop 1 invariant res != nil && fresh(res) && len(res.Contents) == $i
@@ -117,9 +116,9 @@ package generator
 
 //@ func (g *Generator) preparePlugins(be backend.Backend, pds []*plugin.Desc) error
 //@   requires g != nil && be != nil && forall i int :: 0 <= i && i < len(pds) ==> pds[i] != nil
-//@   ensures result == nil ==> len(g.plugins) == old(len(g.plugins)) + len(pds) && forall k int :: 0 <= k && k < len(g.plugins) ==> g.plugins[k] != nil || k < old(len(g.plugins))
+//@   ensures result == nil ==> len(g.plugins) == len(pds) && forall k int :: 0 <= k && k < len(g.plugins) ==> g.plugins[k] != nil
 //@   modifies g.plugins
-//@   loop 1 invariant len(g.plugins) == old(len(g.plugins)) + $i && forall k int :: old(len(g.plugins)) <= k && k < len(g.plugins) ==> g.plugins[k] != nil
+//@   loop 1 invariant len(g.plugins) == $i && forall k int :: 0 <= k && k < len(g.plugins) ==> g.plugins[k] != nil
 
 //@ func (g *Generator) Generate(args *Arguments) (res *plugin.Response)
 //@   requires g != nil && args != nil && args.Out != nil && args.Req != nil
